@@ -116,6 +116,13 @@ def extra_model(model, ctx, limit=40):
 def discharge_ob(ob, budget):
     if ob.entailed:
         return SV.Verdict('proved', 'z3api-incremental', 0.0)
+    try:
+        return _discharge_ob(ob, budget)
+    except (MemoryError, z3.Z3Exception) as e:
+        return SV.Verdict('undecided', None, 0.0, tried=[('resource', '%s: %s' % (type(e).__name__, str(e)[:80]), 0.0)])
+
+
+def _discharge_ob(ob, budget):
     # 1. short in-process attempt (also the model finder)
     v = SV.discharge(ob.hyps, ob.goal, budget_s=min(1.5, budget), backends=('z3api',))
     if v.status != 'undecided':
@@ -247,7 +254,41 @@ def verify_contracts(names, budget=10.0, procs=None, want_smt=False, progress=No
     procs = procs or min(16, max(1, len(tasks)))
     if procs == 1 or len(tasks) == 1:
         return [run_task(t) for t in tasks]
+    # a worker that dies (e.g. a solver blow-up on changed code hitting the memory limit) must neither hang the check
+    # nor pass silently: its task is reported as undecided for the whole function
+    from concurrent.futures import ProcessPoolExecutor
+    from concurrent.futures.process import BrokenProcessPool
     ctx = mp.get_context('fork')
-    with ctx.Pool(procs) as pool:
-        res = pool.map(run_task, tasks, chunksize=1)
+    res = [None] * len(tasks)
+    pending = list(range(len(tasks)))
+    rounds = 0
+    while pending and rounds < 3:
+        rounds += 1
+        with ProcessPoolExecutor(max_workers=procs if rounds == 1 else max(1, procs // 4), mp_context=ctx, initializer=_limit_memory) as ex:
+            futs = {i: ex.submit(run_task, tasks[i]) for i in pending}
+            for i, f in futs.items():
+                try:
+                    res[i] = f.result()
+                except BrokenProcessPool:
+                    pass
+                except Exception as e:      # noqa
+                    res[i] = _dead_task(tasks[i], '%s: %s' % (type(e).__name__, e))
+        pending = [i for i in pending if res[i] is None]
+    for i in pending:
+        res[i] = _dead_task(tasks[i], 'the verification worker died (memory limit) on this case')
     return res
+
+
+def _limit_memory():
+    import resource
+    lim = int(os.environ.get('VERIF_WORKER_MEM_GB', '6')) << 30
+    try:
+        resource.setrlimit(resource.RLIMIT_AS, (lim, lim))
+    except (ValueError, OSError):
+        pass
+
+
+def _dead_task(task, why):
+    cname, recv, assign, labels = task[:4]
+    return {'contract': cname, 'receiver': recv, 'case': labels, 'obligations': [], 'paths': 1, 'unsupported': [why],
+            'trusted': [], 'error': None, 'source': None, 'wall_s': 0.0}
